@@ -498,6 +498,8 @@ const clockEpochUnix = 946684800 // 2000-01-01T00:00:00Z, the synctest epoch
 
 type Timer struct {
 	id       int
+	base     Instant // clock at creation, if deadline = base + (non-negative delay)
+	fromBase bool
 	deadline Instant
 	active   bool
 	period   *Term // nil for one-shot; 64-bit duration
@@ -533,7 +535,7 @@ func (in *Interp) instAdd(t Instant, d *Term) Instant {
 
 func (in *Interp) newTimer(d *Term, what string) *Timer {
 	in.timerSeq++
-	t := &Timer{id: in.timerSeq, deadline: in.instAdd(in.clock, d), active: true, what: what}
+	t := &Timer{id: in.timerSeq, deadline: in.instAdd(in.clock, d), active: true, what: what, base: in.clock, fromBase: nonNeg(d)}
 	in.timers = append(in.timers, t)
 	return t
 }
@@ -570,8 +572,13 @@ func (in *Interp) advanceTime() bool {
 	}
 	t := act[k]
 	// clock = max(clock, deadline)
-	later := in.instLT(in.clock, t.deadline)
-	in.clock = Instant{sec: in.tc.Ite(later, t.deadline.sec, in.clock.sec), nsec: in.tc.WithRange(in.tc.Ite(later, t.deadline.nsec, in.clock.nsec), 0, 999999999)}
+	if t.fromBase && t.base.sec == in.clock.sec && t.base.nsec == in.clock.nsec {
+		// the clock has not moved since the timer was armed with a non-negative delay
+		in.clock = t.deadline
+	} else {
+		later := in.instLT(in.clock, t.deadline)
+		in.clock = Instant{sec: in.tc.Ite(later, t.deadline.sec, in.clock.sec), nsec: in.tc.WithRange(in.tc.Ite(later, t.deadline.nsec, in.clock.nsec), 0, 999999999)}
+	}
 	in.fireTimer(t)
 	return true
 }
